@@ -249,6 +249,21 @@ def mutate_listing(text, seed):
     return '\n'.join(ROW.sub(sub, line) for line in text.split('\n'))
 
 
+_WORK = {}
+
+
+def work_dir():
+    if 'dir' not in _WORK:
+        import atexit
+        _WORK['dir'] = tempfile.mkdtemp(prefix='c10-')
+        atexit.register(shutil.rmtree, _WORK['dir'], True)
+    return _WORK['dir']
+
+
+def multi_count(text):
+    return [i for i in range(len(text)) if text.startswith('RESULTS ARE GIVEN', i)]
+
+
 def groups_of_text(block_text):
     """(lo, hi, score, sigma) of every spectrum line, grouped per scoring zone"""
     groups, cur = [], None
@@ -275,15 +290,19 @@ def run_listing(case):
         with open(os.path.join(repo(), case['file']), errors='ignore', encoding='utf-8') as fobj:
             text = fobj.read()
         new = mutate_listing(text, case['seed'])
-        with tempfile.TemporaryDirectory() as tmp:
-            path = os.path.join(tmp, 'mutated.res')
-            with open(path, 'w', encoding='utf-8') as fobj:
-                fobj.write(new)
-            parser = Parser(path)
-            number = parser.scan_res.batch_number(-1)
-            pres = parser.parse_from_number(number)
-            printed = groups_of_text(parser.scan_res[number])
-            browser = pres.to_browser()
+        # always the same path (a job overwrites its listing): what is read is what the file holds now
+        path = os.path.join(work_dir(), 'mutated.res')
+        with open(path, 'w', encoding='utf-8') as fobj:
+            fobj.write(new)
+        parser = Parser(path)
+        number = parser.scan_res.batch_number(-1)
+        pres = parser.parse_from_number(number)
+        printed = groups_of_text(new[new.rfind('RESULTS ARE GIVEN'):] if 'RESULTS ARE GIVEN' in new else new)
+        printed_scan = groups_of_text(parser.scan_res[number])
+        if printed_scan != printed and len(multi_count(new)) <= 1:
+            out['scan_differs'] = True
+        printed = printed_scan if len(multi_count(new)) > 1 else printed
+        browser = pres.to_browser()
         found = []
         bad_error = []
         for item in browser.content:
